@@ -1399,9 +1399,14 @@ def judge_sites(isa, pending, mon):
         near = ty.kind != "part" and (min(abs(v - ty.lo), abs(ty.hi - v)) <= 4 * ty.gstep or
                                       min(abs(v - ty.glo), abs(ty.ghi - v)) <= 4 * ty.gstep)
         if got != want:
-            mon.violation("%s %s (%s): field designates %#x, symbol %s + addend = %#x%s; site at %#x, value %d%s" % (
-                isa, x["type"], p["class"], got, x["symbol"], want, " (part)" if ty.kind == "part" else "",
-                I, v, "" if rep else " is NOT representable but the link succeeded"), case,
+            if ty.kind == "part":
+                msg = "%s %s (%s): field holds part %#x, the part of symbol %s + addend = %#x is %#x; site at %#x" % (
+                    isa, x["type"], p["class"], got, x["symbol"], S + A, want, I)
+            else:
+                msg = "%s %s (%s): field designates %#x, symbol %s + addend = %#x; site at %#x, value %d%s" % (
+                    isa, x["type"], p["class"], got, x["symbol"], want, I, v,
+                    "" if rep else " is NOT representable but the link succeeded")
+            mon.violation(msg, case,
                 {"site": q["site"], "rel": q["rel"], "read": got, "expected": want, "S": S, "A": A, "I": I,
                  "linked": q["raw"].hex(), "reference_text": ctx.text, "representable": rep})
             continue
